@@ -1300,7 +1300,26 @@ func c07(r *core.Run) {
 			if w, bad := core.Reach(core.Q{From: heads(holds), Target: core.Or(core.IsReturn, core.Is(rc)), Blocked: isPanic}); bad {
 				o.Fail(p.InstrPos(w), "a second value written by the reducer is discarded silently instead of panicking")
 			}
-			if w := core.ReachableFromEdges(fails, isPanic, core.Is(rc)); w != nil {
+			// after output was closed the only panic allowed is the re-raise of a value received from
+			// a channel (the late panic forwarded through the panic channel)
+			isOwnPanic := func(in ssa.Instruction) bool {
+				pn, ok := in.(*ssa.Panic)
+				if !ok {
+					return false
+				}
+				switch x := core.Forward(pn.X).(type) {
+				case *ssa.Extract:
+					if _, isSel := x.Tuple.(*ssa.Select); isSel {
+						return false
+					}
+				case *ssa.UnOp:
+					if x.Op == token.ARROW {
+						return false
+					}
+				}
+				return true
+			}
+			if w := core.ReachableFromEdges(fails, isOwnPanic, core.Is(rc)); w != nil {
 				o.Fail(p.InstrPos(w), "the deferred guard panics although output was closed without a further value")
 			}
 			if w := core.MustPass(core.Entry(gfn), core.Is(rc), core.IsExit); w != nil {
@@ -1313,6 +1332,84 @@ func c07(r *core.Run) {
 		}
 		if !found {
 			o.Fail(p.Pos(f.Pos()), "%s has no deferred receive on output: a second reducer write blocks its goroutine forever instead of panicking in the caller", core.FuncName(f))
+		}
+	})
+
+	r.Check("D5/K1/late-panic-never-blocks-and-is-reraised", "a panic that happens after the caller has taken its result (the reducer panics after writing, the generator panics later) neither blocks its goroutine nor gets lost while the caller is still inside the call: the panic channel every forwarder writes to has room for the one value it ever carries (capacity >= 1: nobody may be receiving any more), and the core's deferred guard, once output is closed, polls that channel without blocking and re-panics with the value received (otherwise the forwarder blocks before it closes output and the caller hangs in its deferred `for range output`: the call never returns)", func(o *core.O) {
+		if !o.Need(coreSel != nil, "MapReduce core") {
+			return
+		}
+		f := coreSel.Parent()
+		kPanic := stateOf(coreSel, func(st *ssa.SelectState) bool {
+			return st.Dir == types.RecvOnly && core.FieldAddrNameOfLoad(core.Forward(st.Chan)) == "onceChan.channel"
+		})
+		if !o.Need(kPanic >= 0, "the panic-channel receive state of the final select") {
+			return
+		}
+		// (1) capacity of every channel stored into onceChan.channel
+		n := 0
+		for _, g := range m.funcs {
+			for _, st := range core.StoresToField(g, "onceChan.channel") {
+				n++
+				mc, ok := core.Strip(core.Forward(st.Val)).(*ssa.MakeChan)
+				if !ok {
+					o.Unres("%s: the panic channel is %s, not a make(chan ...)", p.InstrPos(st), core.Describe(st.Val))
+					continue
+				}
+				if sz, isC := core.ConstInt(mc.Size); !isC || sz < 1 {
+					o.Fail(p.InstrPos(mc), "the panic channel is unbuffered: a goroutine that forwards a panic after the caller has left its select (the reducer panics after writing its value, the generator panics later) blocks for ever, output is never closed and the caller hangs in its deferred `for range output`")
+				}
+			}
+		}
+		o.Site(n, "stores to onceChan.channel")
+		if n == 0 {
+			o.Unres("no store to onceChan.channel found")
+		}
+		// (2) the deferred guard polls the panic channel after output is closed and re-raises
+		kOut := stateOf(coreSel, func(st *ssa.SelectState) bool {
+			return st.Dir == types.RecvOnly && strings.HasPrefix(chanID(st.Chan), "make:")
+		})
+		if kOut < 0 {
+			return
+		}
+		out := chanID(coreSel.States[kOut].Chan)
+		for _, d := range core.Instrs(f, func(in ssa.Instruction) bool { _, k := in.(*ssa.Defer); return k }) {
+			gfn := deferredFn(d)
+			if gfn == nil || len(core.Instrs(gfn, isRecvOn(out))) != 1 {
+				continue
+			}
+			polls := core.Instrs(gfn, func(in ssa.Instruction) bool {
+				sel, ok := in.(*ssa.Select)
+				if !ok || sel.Blocking {
+					return false
+				}
+				for _, st := range sel.States {
+					if st.Dir == types.RecvOnly && core.FieldAddrNameOfLoad(core.Forward(st.Chan)) == "onceChan.channel" {
+						return true
+					}
+				}
+				return false
+			})
+			o.Site(len(polls), core.FuncName(gfn))
+			if len(polls) == 0 {
+				o.Fail(p.Pos(gfn.Pos()), "the deferred guard does not poll the panic channel after output was closed: a panic raised after the result was taken is dropped instead of being re-raised in the calling goroutine")
+				continue
+			}
+			sel := polls[0].(*ssa.Select)
+			reraise := func(in ssa.Instruction) bool {
+				pn, ok := in.(*ssa.Panic)
+				if !ok {
+					return false
+				}
+				e, ok := core.Forward(pn.X).(*ssa.Extract)
+				return ok && e.Tuple == ssa.Value(sel)
+			}
+			if len(core.Instrs(gfn, reraise)) == 0 {
+				o.Fail(p.InstrPos(sel), "the value polled from the panic channel is not re-panicked")
+			}
+			if w := core.MustPass(core.Entry(gfn), core.Is(sel), core.Or(core.IsReturn)); w != nil {
+				o.Fail(p.InstrPos(w), "the deferred guard can return normally without polling the panic channel")
+			}
 		}
 	})
 
